@@ -1,7 +1,7 @@
 //! The interpreter's own command-line program, built from /repo's working tree twice — in the `dev` profile
 //! (no optimisation, debug assertions and overflow checks on: what `cargo run` and `cargo test` give) and in
 //! the `release` profile — and run on generated files, each in its own process with the ordinary 8 MiB main
-//! stack. The harness's own builds are optimised (opt-level 1 and 2), so anything that only works because the
+//! stack (the unoptimised build also on a 2 MiB stack, the size of every spawned thread and of `cargo test` threads). The harness's own builds are optimised (opt-level 1 and 2), so anything that only works because the
 //! optimiser turned a recursion into a loop, or because optimised frames are small, is invisible to them.
 //!
 //! The cases are "long run" ladders: ONE syntactic dimension (a run of white space, of comment lines, of
@@ -129,9 +129,9 @@ pub fn each(tier: Tier, f: &mut dyn FnMut(Case) -> bool) -> bool {
         ("right-nested-operators", Box::new(|n| (format!("{}1{}", "1 + (".repeat(n), ")".repeat(n)), None))),
     ];
     for (name, gen) in nested {
-        let mut ns: Vec<usize> = vec![16, 64, 128, 200, 256, 300, 400, 450, 480, 495, 498, 499, 500, 501, 512, 1000, 4097, 65_537];
+        let mut ns: Vec<usize> = vec![8, 16, 32, 64, 90, 99, 100, 101, 128, 200, 256, 300, 400, 450, 480, 495, 498, 499, 500, 501, 512, 1000, 4097, 65_537];
         if tier != Tier::Quick {
-            ns.extend([32, 100, 350, 490, 2048, 16_385, 262_145]);
+            ns.extend([48, 80, 95, 110, 150, 350, 490, 2048, 16_385, 262_145]);
         }
         for n in ns {
             let (text, expect) = gen(n);
@@ -169,10 +169,10 @@ pub struct CliOutcome {
 }
 
 /// Runs one build of the command-line program on a file (own process, 8 MiB stack, 25 s, 4 GiB).
-pub fn run_cli(exe: &str, file: &str) -> CliOutcome {
+pub fn run_cli(exe: &str, file: &str, stack_kib: usize) -> CliOutcome {
     let child = Command::new("sh")
         .arg("-c")
-        .arg("ulimit -s 8192; ulimit -v 4000000; exec timeout -s KILL 25 \"$0\" \"$1\"")
+        .arg(format!("ulimit -s {stack_kib}; ulimit -v 4000000; exec timeout -s KILL 25 \"$0\" \"$1\""))
         .arg(exe)
         .arg(file)
         .stdin(Stdio::null())
@@ -230,25 +230,29 @@ pub fn check_case(sh: &mut Shard, class: &str, c: &Case, dev: &str, rel: &str) {
             return;
         }
     }
-    let d = run_cli(dev, &file);
+    let d = run_cli(dev, &file, 8192);
     sh.begin(&|| format!("command-line builds on {} x {} (release run)", c.family, c.n));
-    let r = run_cli(rel, &file);
+    let r = run_cli(rel, &file, 8192);
+    // the unoptimised build again on a 2 MiB stack: what every thread a program spawns gets, and what the
+    // repository's own tests run on (`cargo test`: dev profile, one 2 MiB thread per test)
+    sh.begin(&|| format!("command-line builds on {} x {} (unoptimised, 2 MiB stack)", c.family, c.n));
+    let d2 = run_cli(dev, &file, 2048);
     let _ = std::fs::remove_file(&file);
-    sh.add("cli-runs", 2);
-    for o in [&d, &r] {
+    sh.add("cli-runs", 3);
+    for o in [&d, &r, &d2] {
         if o.status.starts_with("MACHINERY") {
             sh.machinery(o.status.clone());
             return;
         }
     }
     // a run that does not finish in 25 s is not compared (counted and reported; hangs are C05's own families)
-    if d.status == "TIMEOUT" || r.status == "TIMEOUT" {
+    if d.status == "TIMEOUT" || r.status == "TIMEOUT" || d2.status == "TIMEOUT" {
         sh.count("cli-too-slow-not-compared");
         return;
     }
     let desc = json!({"cli": {"family": c.family, "n": c.n}, "text_head": c.text.chars().take(80).collect::<String>(), "text_bytes": c.text.len()});
     let mut why: Option<String> = None;
-    for (name, o) in [("unoptimised (dev)", &d), ("release", &r)] {
+    for (name, o) in [("unoptimised (dev)", &d), ("release", &r), ("unoptimised (dev), on a 2 MiB stack,", &d2)] {
         if !o.status.starts_with("exit ") {
             why = Some(format!("the {name} build of the interpreter was {} on {} x {} ({} bytes of input); stderr: {:?}", o.status, c.family, c.n, c.text.len(), o.stderr_head));
             break;
@@ -256,6 +260,9 @@ pub fn check_case(sh: &mut Shard, class: &str, c: &Case, dev: &str, rel: &str) {
     }
     if why.is_none() && (d.status != r.status || d.stdout != r.stdout) {
         why = Some(format!("the builds disagree on {} x {}: unoptimised ({}) printed {:?}, release ({}) printed {:?}", c.family, c.n, d.status, d.stdout, r.status, r.stdout));
+    }
+    if why.is_none() && (d2.status != r.status || d2.stdout != r.stdout) {
+        why = Some(format!("the builds disagree on {} x {}: unoptimised on a 2 MiB stack ({}) printed {:?}, release ({}) printed {:?}", c.family, c.n, d2.status, d2.stdout, r.status, r.stdout));
     }
     if why.is_none() {
         if let Some(e) = &c.expect {
